@@ -33,6 +33,7 @@ import SwcVerif.Model.AlgoRunCat
 import SwcVerif.Model.AlgoRunAssemble
 import SwcVerif.Model.AlgoRunLMeasure
 import SwcVerif.Model.AlgoRunLmGeo
+import SwcVerif.Model.AlgoRunVolCtl
 import SwcVerif.Model.AlgoRunNodeBranch
 import SwcVerif.Model.AlgoRunMst
 import SwcVerif.Model.AlgoRunMstFront
@@ -109,6 +110,7 @@ def dispatch (op : String) (args : List String) : String :=
   | "gcat" => AlgoRun.handleCat args
   | "glm" => AlgoRun.handleLm args
   | "glmgeo" => AlgoRun.handleLmGeo args
+  | "gvolctl" => AlgoRun.handleVolCtl args
   | "gtips" | "gnodebranch" | "gnode" => AlgoRun.handleNodeBranch op args
   | "gmst" => AlgoRun.handleMst args
   | "gmstcall" => AlgoRun.handleMstCall args
